@@ -74,9 +74,11 @@ var embNames = []string{"bare", "nested-in-format", "upper-case",
 	// the placeholder is not the whole value (template positions only; quick: for four contexts):
 	"text-before-placeholder", "second-placeholder",
 	// text that holds the closing braces `}}` (a Go template, JSON) stands before the placeholder
-	"closing-braces-before-placeholder"}
+	"closing-braces-before-placeholder",
+	// the name stands inside the brackets of an index access whose operand is a call of unknown type
+	"index-into-unknown"}
 
-const embTextBefore, embSecond, embBraces = 11, 12, 13
+const embTextBefore, embSecond, embBraces, embIndexUnknown = 11, 12, 13, 14
 
 const quickEmbeddings = 3
 
@@ -112,6 +114,8 @@ func exprFor(name string, isFn bool, emb int) string {
 		return "fromJSON('{}')[" + e + "]"
 	case 10:
 		return e + ".foo"
+	case embIndexUnknown:
+		return "fromJSON(format('{0}', 1))[" + e + "]"
 	}
 	return e
 }
@@ -635,6 +639,15 @@ func main() {
 		for _, f := range sp.funcs {
 			for emb := 0; emb < nEmb; emb++ {
 				cases = append(cases, makeCase(pi, f, true, emb))
+			}
+		}
+		// (quick tier too) the index of an access into a value of unknown type
+		if nEmb <= embIndexUnknown {
+			for _, c := range sp.contexts {
+				cases = append(cases, makeCase(pi, c, false, embIndexUnknown))
+			}
+			for _, f := range sp.funcs {
+				cases = append(cases, makeCase(pi, f, true, embIndexUnknown))
 			}
 		}
 		if *tier != "thorough" && positions[pi].Form == 0 && acceptsText(pi) {
